@@ -510,6 +510,28 @@ def effects_tie(rep):
                            {'unit': e['name'], 'written': e.get('written'), 'lines': sorted(e.get('lines', []))})
 
 
+def translator_selftest(rep, thorough):
+    """(T) differential soundness test of the effects translator + analysis (tools/effects_selftest.py): units generated from a template
+    grammar are EXECUTED on numpy arrays; whenever running a unit modifies its argument, the analysis must reject it"""
+    import effects_selftest
+    try:
+        res = effects_selftest.run(stride=1 if thorough else 5)
+    except Exception as e:                                      # noqa: BLE001
+        rep.tie_broken('effects translator self-test failed to run', repr(e))
+        return
+    rep.count('translator-selftest:units-executed', res['executed'])
+    rep.count('translator-selftest:agree', res['agree'])
+    rep.count('translator-selftest:rejected-although-harmless', res['imprecise'])
+    for form, d in res['per_form'].items():
+        rep.count(f'translator-selftest:{form}:modifying-units', d['modifies'])
+    rep.traces += res['executed']
+    for u in res['unsound'][:3]:
+        rep.tie_broken(f'effects translator unsound: a {u["form"]} unit that modifies its argument when executed is accepted '
+                       f'(alias `{u["alias"]}`, then `{u["second"]}`, statement `{u["statement"]}`)', {'source': u['source']})
+    if res['unsound']:
+        rep.count('translator-selftest:unsound', len(res['unsound']))
+
+
 def run(rep, tier):
     thorough = tier == 'thorough'
     rep.rule = ('effects: every public function / class of 37 modules translated to an effect program and analysed; dynamic: 12 API groups '
@@ -519,10 +541,12 @@ def run(rep, tier):
                 'apertures, estimators, NDData) compared after return or raise.')
     rep.assumptions += ['calls into numpy / scipy / astropy are assumed not to modify their arguments except the in-place functions listed in tools/effects.py',
                         'attribute access and subscripts are treated as aliases; try bodies run entirely or not at all; summaries are used for calls between photutils functions',
-                        'methods documented as in-place mutators of their own object (SegmentationImage.relabel*, ProfileBase.normalize, ...) are exempt']
+                        'methods documented as in-place mutators of their own object (SegmentationImage.relabel*, ProfileBase.normalize, ...) are exempt',
+                        'the translator itself is validated by a differential self-test (executed template units vs verdicts), not proved']
     rep.lean = prove(PROP_MODULES)
     r = rng('C10')
     effects_tie(rep)
+    translator_selftest(rep, thorough)
     sweep(rep, r, 8 if thorough else 4)
 
 
